@@ -86,6 +86,7 @@ static void slot_name(int slot, int second, char *b, size_t cap) {
 
 /* ------------------------------------------------------------ running one (scenario, plan) */
 static uint64_t evals, effective;
+static uint32_t base_blocks; static uint64_t base_bytes;      /* per-interface record of a fresh responder, measured in main() */
 static void start_state(int start) {
     if (!start) return;
     pev e = ev_discover(0, ST_M1, ST_M1, 0x1234, 1); drv_linux(&e, 0);
@@ -155,7 +156,7 @@ static uint32_t run_scenario(int s, int slot, int second) {
     /* faults are over: a topology Reset must leave nothing but the per-interface record */
     vf_trace_clear();
     pev rs = ev_reset(0, ST_M1); drv_linux(&rs, 0);
-    if (vf_live_blocks() > 1) vf_violation("faults:leak-after-reset", "scenario under [%s], then Reset: %u blocks (%llu bytes) remain allocated; only the per-interface record may", what, vf_live_blocks(), (unsigned long long)vf_live_bytes());
+    if (vf_live_blocks() > base_blocks || vf_live_bytes() > base_bytes) vf_violation("faults:leak-after-reset", "scenario under [%s], then Reset: %u blocks (%llu bytes) remain allocated; a fresh responder keeps %u block(s), %llu bytes", what, vf_live_blocks(), (unsigned long long)vf_live_bytes(), base_blocks, (unsigned long long)base_bytes);
     if (W.led.bad_free) vf_violation("faults:bad-free", "scenario under [%s]: free of a pointer that is not a live allocation", what);
     return pts;
 }
@@ -199,6 +200,7 @@ int main(int argc, char **argv) {
     vf_parse_args(argc, argv, "C18");
     vf_world_init(A.mtu, A.wifi, (uint8_t)A.fill);
     build_requests();
+    { vf_world_reset(); pev rs0 = ev_reset(0, ST_M1); vf_trace_clear(); drv_linux(&rs0, 0); base_blocks = vf_live_blocks(); base_bytes = vf_live_bytes(); vf_world_reset(); }
     NSCEN = nscen_req() + 4;
     NGETSUB = vf_thorough() ? 4096 : 64;
     double t0 = vf_now_s();
